@@ -6,6 +6,8 @@
   Generated/ScalarOps.lean (shape of every F32Scalar operator/constructor body in scalar.rs).
 -/
 import EchoVerif.Lemmas.Math
+import EchoVerif.Lemmas.MathRound
+import EchoVerif.Lemmas.MathLut
 import EchoVerif.Generated.TrigLut
 import EchoVerif.Generated.ScalarOps
 set_option linter.unusedSimpArgs false
@@ -153,30 +155,32 @@ theorem lut_facts :
       exact (List.pairwise_iff_getElem.1 pw) i j hi' hj' hlt
     · rw [hi] at hj; injection hj with hj; omega
 
-/-- PARTIAL. Full statement: for every x, `sin_cos_f32 x` lies in [−1,1]². Proved: quadrant
-    reconstruction, sign application and zero canonicalisation preserve |·| ≤ 1, so the claim follows
-    from `hinterp` (the rounded lerp `y0 + frac·(y1−y0)` stays in [0,1]); `hinterp` needs monotonicity
-    of the RNE rounding and is left to the differential run + direct oracle. -/
-theorem trig_range_partial (da : Bool) (lt : Nat → Option Nat) (segs : Nat)
-    (hinterp : ∀ a v, sinQtrInterp da lt segs a = some v → MagLeOne v)
-    (x s c : Nat) (h : sinCos da lt segs x = some (s, c)) : MagLeOne s ∧ MagLeOne c :=
-  trig_range_of_interp da lt segs hinterp x s c h
+/-- the table pass (`Lemmas/MathLut.lean`, `decide +kernel` over the EXTRACTED table): `i as f32` exact
+    for `i < SEGMENTS`; every segment has `y0 ≤ y1` non-negative finite and `y0 + (y1 − y0) ≤ 1` EXACTLY;
+    the −0 argument gives +0. -/
+theorem interp_facts : InterpFacts lut sinQtrSegmentsF32 := lutInterpFacts
 
-/-- `hinterp` is satisfiable (a table with no entries: only the 0.0 / 1.0 / panic arms remain). -/
-example : ∀ a v, sinQtrInterp false (fun _ => none) 1024 a = some v → MagLeOne v := by
-  intro a v h
-  unfold sinQtrInterp at h
-  split at h
-  · simp at h; rw [← h]; decide
-  · simp only [] at h
-    split at h
-    · injection h with h; rw [← h]; decide
-    · cases h
+/-- the rounded lerp `y0 + frac·(y1 − y0)` of `sin_qtr_interp` stays in [0,1] for EVERY argument
+    pattern: `frac = t − ⌊t⌋ ∈ [0,1]`, and RNE rounding never crosses a representable bound
+    (`roundPos_le_of_le`), so `frac·d ≤ d` and `y0 + frac·d ≤ y0 + d ≤ 1` survive the three roundings. -/
+theorem interp_unit_range (da : Bool) (a v : Nat)
+    (h : sinQtrInterp da lut sinQtrSegmentsF32 a = some v) : MagLeOne v :=
+  interp_range interp_facts da a v h
+
+/-- FULL: for every pattern x and either profile, if `sin_cos_f32 x` returns then both results lie in
+    [−1, 1] (real pipeline, extracted table, exact-rational RNE soft-float). -/
+theorem trig_range (da : Bool) (x s c : Nat)
+    (h : sinCos da lut sinQtrSegmentsF32 x = some (s, c)) : MagLeOne s ∧ MagLeOne c :=
+  trig_range_of_interp da lut sinQtrSegmentsF32 (interp_unit_range da) x s c h
+
+/-- non-vacuity: sin/cos(1.0) returns in both profiles. -/
+example : (sinCos true lut sinQtrSegmentsF32 oneBits).isSome = true ∧
+    (sinCos false lut sinQtrSegmentsF32 oneBits).isSome = true := by decide +kernel
 
 /-! ### totality and the debug tripwire -/
 
 /-- `sin_cos_f32` panics exactly when (a) the |x| pipeline panics, or (b) the angle is non-finite AND
-    debug assertions are on. -/
+    debug assertions are on (any pipeline). -/
 theorem trig_total_modulo_core (core : Nat → Option (Nat × Nat)) (da : Bool) (x : Nat) :
     sinCosWith core da x = none ↔
       ((¬ isFiniteB x ∧ da = true) ∨ (isFiniteB x ∧ core (absBits x) = none)) := by
@@ -188,6 +192,51 @@ theorem trig_total_modulo_core (core : Nat → Option (Nat × Nat)) (da : Bool) 
     | some p => simp [hf]
   · rw [if_pos hf]
     cases da <;> simp [hf]
+
+/-- the table index of `sin_qtr_interp` is ALWAYS in range: with the real table the interpolation
+    panics only through its own `debug_assert!` (argument outside [0, π/2] and debug assertions on). -/
+theorem interp_index_in_range (da : Bool) (a : Nat) :
+    sinQtrInterp da lut sinQtrSegmentsF32 a = none ↔
+      (da = true ∧ (fle 0 a && fle a fracPi2) = false) :=
+  interp_none_iff interp_facts da a
+
+/-- FULL for the release profile: without debug assertions `sin_cos_f32` returns for EVERY pattern
+    (finite or not) — no table index out of bounds, no other panic path. -/
+theorem trig_total_release (x : Nat) : sinCos false lut sinQtrSegmentsF32 x ≠ none := by
+  intro h
+  rcases (trig_total_modulo_core _ false x).1 h with ⟨_, h⟩ | ⟨_, h⟩
+  · cases h
+  · unfold trigCore at h
+    generalize reduceQuadrant (absBits x) = qa at h
+    simp only [] at h
+    split at h
+    · cases h
+    · rename_i hn
+      cases h1 : sinQtrInterp false lut sinQtrSegmentsF32 qa.2 with
+      | none => exact absurd ((interp_index_in_range false _).1 h1).1 (by decide)
+      | some s =>
+        cases h2 : sinQtrInterp false lut sinQtrSegmentsF32 (fsub fracPi2 qa.2) with
+        | none => exact absurd ((interp_index_in_range false _).1 h2).1 (by decide)
+        | some c => exact hn s c h1 h2
+
+/-- FULL totality of `sin_cos_f32` (real pipeline, extracted table, both profiles): it panics iff the
+    angle is non-finite AND debug assertions are on. In particular the `debug_assert!` inside
+    `sin_qtr_interp` is dead code on every input (range reduction: `|x| % TAU ≤ pred TAU`, each
+    quadrant offset and `π/2 − a` stay in [0, π/2] after rounding), and the table index is in range. -/
+theorem trig_total (da : Bool) (x : Nat) (hx : x < two32) :
+    sinCos da lut sinQtrSegmentsF32 x = none ↔ (¬ isFiniteB x ∧ da = true) :=
+  sinCos_none_iff interp_facts da hx
+
+/-- the same through `F32Scalar::sin_cos` (argument canonicalised first). -/
+theorem scalar_trig_total (da : Bool) (x : Nat) (hx : x < two32) :
+    scalarSinCosWith (trigCore da lut sinQtrSegmentsF32) da x = none ↔
+      (¬ isFiniteB (canon x) ∧ da = true) := by
+  have hc : canon x < two32 := (Math.canon_closed x hx).1
+  have := trig_total da (canon x) hc
+  unfold sinCos at this
+  unfold scalarSinCosWith
+  rw [← this]
+  cases sinCosWith (trigCore da lut sinQtrSegmentsF32) da (canon x) <;> simp
 
 /-- KNOWN FINDING (negation of "regardless of build profile" on a concrete witness): for angle = +∞
     a build with debug assertions panics, a build without returns (0.0, 1.0), whatever the pipeline. -/
@@ -271,28 +320,97 @@ theorem det_sqrt_range (b : Nat) : detSqrt b ≤ 0x7f800000 := by
       exact roundDyadic_false_le _ _
   · omega
 
-/-- KNOWN FINDING witnesses (model level, real pipeline + extracted table): a finite axis whose
-    squared length overflows makes `from_axis_angle` panic under debug assertions and return a
-    quaternion with a NaN component without them; the Hamilton product of (1e38 i)·(1e38 i)
-    panics under debug assertions and has an infinite component without them. -/
-theorem axis_angle_overflow_witness :
-    Q4.fromAxisAngle true (sinCos true lut sinQtrSegmentsF32) ⟨0x60000000, 0, 0⟩ oneBits = none ∧
-    (∃ q, Q4.fromAxisAngle false (sinCos false lut sinQtrSegmentsF32) ⟨0x60000000, 0, 0⟩ oneBits = some q ∧
-      isNaN q.y) ∧
+/-- FIXED defect (`fix: from_axis_angle returns identity when |axis|² is not finite`): whenever the
+    squared axis length is not finite (overflow of a finite axis, or NaN/∞ components) the result is
+    the identity in BOTH profiles, for any angle and any trig backend — no `1/det_sqrt(inf) = 1/0`
+    NaN quaternion, no `Quat::new` debug panic. -/
+theorem axis_angle_overflow_identity (da : Bool) (trig : Nat → Option (Nat × Nat)) (axis : V3) (angle : Nat)
+    (h : ¬ isFiniteB (axis.dot axis)) : Q4.fromAxisAngle da trig axis angle = some Q4.identity := by
+  unfold Q4.fromAxisAngle
+  simp [finiteB, h]
+
+/-- non-vacuity, and the former failing input (axis (2^65,0,0), angle 1): `|axis|²` overflows. -/
+example : ¬ isFiniteB ((⟨0x60000000, 0, 0⟩ : V3).dot ⟨0x60000000, 0, 0⟩) := by decide +kernel
+
+/-- KNOWN FINDING witness (model level): the Hamilton product of (1e38 i)·(1e38 i) panics under debug
+    assertions (`Quat::new` debug_assert) and has an infinite component without them. -/
+theorem quat_mul_overflow_witness :
     Q4.mul true ⟨0x7e967699, 0, 0, 0⟩ ⟨0x7e967699, 0, 0, 0⟩ = none ∧
     (∃ q, Q4.mul false ⟨0x7e967699, 0, 0, 0⟩ ⟨0x7e967699, 0, 0, 0⟩ = some q ∧ ¬ isFiniteB q.w) := by
-  refine ⟨by decide +kernel, ?_, by decide +kernel, ?_⟩
-  · cases h : Q4.fromAxisAngle false (sinCos false lut sinQtrSegmentsF32) ⟨0x60000000, 0, 0⟩ oneBits with
-    | none => exact absurd h (by decide +kernel)
-    | some q => exact ⟨q, rfl, by
-        have : (Q4.fromAxisAngle false (sinCos false lut sinQtrSegmentsF32) ⟨0x60000000, 0, 0⟩ oneBits).map
-            (fun q => decide (isNaN q.y)) = some true := by decide +kernel
-        rw [h] at this; simpa using this⟩
-  · cases h : Q4.mul false ⟨0x7e967699, 0, 0, 0⟩ ⟨0x7e967699, 0, 0, 0⟩ with
-    | none => exact absurd h (by decide +kernel)
-    | some q => exact ⟨q, rfl, by
-        have : (Q4.mul false ⟨0x7e967699, 0, 0, 0⟩ ⟨0x7e967699, 0, 0, 0⟩).map
-            (fun q => decide (isFiniteB q.w)) = some false := by decide +kernel
-        rw [h] at this; simpa using this⟩
+  refine ⟨by decide +kernel, ?_⟩
+  cases h : Q4.mul false ⟨0x7e967699, 0, 0, 0⟩ ⟨0x7e967699, 0, 0, 0⟩ with
+  | none => exact absurd h (by decide +kernel)
+  | some q => exact ⟨q, rfl, by
+      have : (Q4.mul false ⟨0x7e967699, 0, 0, 0⟩ ⟨0x7e967699, 0, 0, 0⟩).map
+          (fun q => decide (isFiniteB q.w)) = some false := by decide +kernel
+      rw [h] at this; simpa using this⟩
+
+/-! ### the rest of the public API: ordering and clamp -/
+
+/-- `F32Scalar`'s `Eq`/`Ord` (total_cmp on the stored value): `cmp = Equal` iff the stored bit patterns
+    are identical (so `==` is bitwise on canonical values, NaN == NaN included), and the order is
+    antisymmetric. -/
+theorem scalar_cmp_eq_iff_bits (a b : Nat) (ha : a < two32) (hb : b < two32) :
+    (scalarCmp a b = 0 ↔ a = b) ∧ (scalarCmp a b = -1 ↔ scalarCmp b a = 1) := by
+  have inj : totalKey a = totalKey b ↔ a = b := by
+    unfold totalKey two32 at *
+    by_cases h1 : 2147483648 ≤ a <;> by_cases h2 : 2147483648 ≤ b <;>
+      simp only [h1, h2, if_true, if_false] <;> omega
+  rw [← inj]
+  unfold scalarCmp
+  generalize totalKey a = ka
+  generalize totalKey b = kb
+  constructor <;> (repeat' split) <;> omega
+
+/-- on canonical non-NaN values (no −0 is ever stored) the total order IS the numeric order. -/
+theorem scalar_cmp_numeric (a b : Nat) (ha : Canonical a) (hb : Canonical b) (na : ¬ isNaN a) (nb : ¬ isNaN b) :
+    (scalarCmp a b = -1 ↔ flt a b = true) := by
+  unfold flt
+  rw [if_neg (by intro h; rcases h with h | h; exact na h; exact nb h)]
+  unfold Canonical negZero two32 at *
+  unfold scalarCmp totalKey ordKey
+  by_cases h1 : 2147483648 ≤ a <;> by_cases h2 : 2147483648 ≤ b <;>
+    simp only [h1, h2, if_true, if_false, decide_eq_true_eq] <;> split <;> (try split) <;> omega
+
+/-- `clamp` panics exactly when `min <= max` is false (NaN bounds included) — an `assert!`, so in every
+    profile — and otherwise returns a value inside `[min, max]` for every non-NaN input. -/
+theorem clamp_total_in_range (v lo hi : Nat) :
+    (clampF v lo hi = none ↔ fle lo hi = false) ∧
+    (∀ r, clampF v lo hi = some r → ¬ isNaN v → fle lo r = true ∧ fle r hi = true) := by
+  have fltE : ∀ x y, ¬ isNaN x → ¬ isNaN y → flt x y = decide (ordKey x < ordKey y) := by
+    intro x y nx ny; unfold flt
+    rw [if_neg (by intro h; rcases h with h | h; exact nx h; exact ny h)]
+  have fleE : ∀ x y, ¬ isNaN x → ¬ isNaN y → fle x y = decide (ordKey x ≤ ordKey y) := by
+    intro x y nx ny; unfold fle
+    rw [if_neg (by intro h; rcases h with h | h; exact nx h; exact ny h)]
+  unfold clampF
+  cases hle : fle lo hi
+  · simp
+  · simp only [Bool.not_true, Bool.false_eq_true, if_false]
+    refine ⟨by simp, ?_⟩
+    intro r hr nv
+    have hr := Option.some.inj hr
+    have hnn : ¬ (isNaN lo ∨ isNaN hi) := by
+      intro h; unfold fle at hle; rw [if_pos h] at hle; cases hle
+    have nlo : ¬ isNaN lo := fun h => hnn (Or.inl h)
+    have nhi : ¬ isNaN hi := fun h => hnn (Or.inr h)
+    have hk : ordKey lo ≤ ordKey hi := by
+      rw [fleE lo hi nlo nhi] at hle; simpa using hle
+    rw [fltE v lo nv nlo, fltE hi v nhi nv] at hr
+    by_cases c1 : ordKey v < ordKey lo
+    · rw [decide_eq_true c1] at hr; simp only [if_true] at hr; subst hr
+      rw [fleE lo lo nlo nlo, fleE lo hi nlo nhi]
+      simp [hk]
+    · rw [decide_eq_false c1] at hr; simp only [Bool.false_eq_true, if_false] at hr
+      by_cases c2 : ordKey hi < ordKey v
+      · rw [decide_eq_true c2] at hr; simp only [if_true] at hr; subst hr
+        rw [fleE lo hi nlo nhi, fleE hi hi nhi nhi]
+        simp [hk]
+      · rw [decide_eq_false c2] at hr; simp only [Bool.false_eq_true, if_false] at hr; subst hr
+        rw [fleE lo v nlo nv, fleE v hi nv nhi]
+        simp only [decide_eq_true_eq]
+        omega
+
+example : clampF 0x40000000 0 oneBits = some oneBits := by decide +kernel
 
 end EchoVerif.C19
